@@ -318,6 +318,46 @@ func runC11(w *core.WorkerCtx, idx int) *core.CaseResult {
 		spec2.Jobs[0].Interval, spec2.Jobs[0].Timeout = "41s", "7s"
 		text2 := cfggen.Render(spec2, cfggen.Style{Indent: 2})
 		if orig2, err := config.Load(text2, false, log.NewNopLogger()); err == nil {
+			if r.Intn(3) == 0 {
+				// the write of the generated file fails ONCE, exactly while the second configuration is applied
+				// (the path is a directory for a moment); afterwards the coordinator does what it always does:
+				// it pushes the configuration again if the shard does not report its hash, and posts targets
+				out := in.Opt.OutFile
+				_ = os.Rename(out, out+".saved")
+				_ = os.Mkdir(out, 0755)
+				perr := in.PushConfig(text2)
+				_ = os.Remove(out)
+				_ = os.Rename(out+".saved", out)
+				if perr == nil {
+					res.Inconcl = "the injected write failure did not surface"
+					return res
+				}
+				res.AddStat("configurations_applied_with_a_failing_file_write", 1)
+				h2, _ := hashOf(text2)
+				if rt, err := in.Runtime(); err == nil && rt.ConfigHash != h2 {
+					if err := in.PushConfig(text2); err != nil {
+						res.Inconcl = "sidecar rejected the second configuration: " + err.Error()
+						return res
+					}
+				}
+				a1 := map[string][]*target.Target{}
+				for j, ts := range assign {
+					if _, ok := want[j]; ok {
+						a1[j] = ts
+					}
+				}
+				if err := in.UpdateTargets(a1); err != nil {
+					res.Inconcl = "targets update after the failed write: " + err.Error()
+					return res
+				}
+				if gb, err := in.GeneratedConfig(); err == nil {
+					compare("after a configuration whose file write failed once, followed by an ordinary targets update", text2, orig2, gb, want)
+				}
+				if len(res.Viol) > 0 {
+					res.Viol = dedupeV(res.Viol)
+					return res
+				}
+			}
 			if err := in.PushConfig(text2); err != nil {
 				res.Inconcl = "sidecar rejected the second configuration: " + err.Error()
 				return res
